@@ -351,26 +351,18 @@ class Node:
             if value_node.tag == 'tag:yaml.org,2002:null':
                 return default is None
 
-            if value_node.tag == 'tag:yaml.org,2002:int':
-                return int(value_node.value) == int(default)
-
-            if value_node.tag == 'tag:yaml.org,2002:float':
-                return float(value_node.value) == float(default)
-
-            if value_node.tag == 'tag:yaml.org,2002:bool':
-                if default is False:
-                    return (
-                            str(value_node.value).lower() == 'n' or
-                            str(value_node.value).lower() == 'no' or
-                            str(value_node.value).lower() == 'false' or
-                            str(value_node.value).lower() == 'off')
-                elif default is True:
-                    return (
-                            str(value_node.value).lower() == 'y' or
-                            str(value_node.value).lower() == 'yes' or
-                            str(value_node.value).lower() == 'true' or
-                            str(value_node.value).lower() == 'on')
-                return False
+            if value_node.tag in (
+                    'tag:yaml.org,2002:int', 'tag:yaml.org,2002:float',
+                    'tag:yaml.org,2002:bool', 'tag:yaml.org,2002:str'):
+                if type(default) not in (int, float, bool, str):
+                    return False
+                value = Node(value_node).get_value()
+                if (
+                        isinstance(value, (bool, str)) or
+                        isinstance(default, (bool, str))):
+                    # no 1 == True or 5 == '5'
+                    return type(value) == type(default) and value == default
+                return bool(value == default)
 
             return bool(value_node.value == default)
 
